@@ -6,6 +6,7 @@ import (
 	"go/token"
 	"go/types"
 	"log"
+	"sort"
 
 	"github.com/goghcrow/go-ast-matcher"
 	"github.com/goghcrow/go-imports"
@@ -185,7 +186,50 @@ func (r *rewriter) rewriteFile(f *loader.File, printer FilePrinter) {
 	// clear free-floating comments, preventing confusing position of comments
 	// https://github.com/golang/go/issues/20744
 	f.File.Comments = r.comments
+	if f.File.Comments != nil {
+		// go/printer prints doc comments by itself only when the comment list is nil,
+		// keep them (they may carry directives, e.g. //go:embed) next to the attached ones
+		f.File.Comments = mergeComments(docComments(f.File), r.comments)
+	}
 	printer(f.Filename, f)
+}
+
+// docComments collects the doc and line comments attached to nodes of the file
+func docComments(f *ast.File) (xs []*ast.CommentGroup) {
+	add := func(gs ...*ast.CommentGroup) {
+		for _, g := range gs {
+			if g != nil {
+				xs = append(xs, g)
+			}
+		}
+	}
+	ast.Inspect(f, func(n ast.Node) bool {
+		switch n := n.(type) {
+		case *ast.File:
+			add(n.Doc)
+		case *ast.GenDecl:
+			add(n.Doc)
+		case *ast.FuncDecl:
+			add(n.Doc)
+		case *ast.ImportSpec:
+			add(n.Doc, n.Comment)
+		case *ast.ValueSpec:
+			add(n.Doc, n.Comment)
+		case *ast.TypeSpec:
+			add(n.Doc, n.Comment)
+		case *ast.Field:
+			add(n.Doc, n.Comment)
+		}
+		return true
+	})
+	return
+}
+
+// mergeComments returns the comment groups of both lists in source order
+func mergeComments(xs, ys []*ast.CommentGroup) []*ast.CommentGroup {
+	zs := append(append([]*ast.CommentGroup{}, xs...), ys...)
+	sort.SliceStable(zs, func(i, j int) bool { return zs[i].Pos() < zs[j].Pos() })
+	return zs
 }
 
 // ↓↓↓↓↓↓↓↓↓↓↓↓↓↓↓↓↓↓↓↓↓↓ Collect YieldFunc ↓↓↓↓↓↓↓↓↓↓↓↓↓↓↓↓↓↓↓↓↓↓
